@@ -133,6 +133,22 @@ func Main(prop, tier string, only int) int {
 		fmt.Printf("INFRA no E3 scenarios for %s\n", prop)
 		return 2
 	}
+	// the tier's budget is shared: with more scenarios than parallel slots each gets a proportionally shorter deadline
+	{
+		par := runtime.NumCPU() / 2
+		if par < 1 {
+			par = 1
+		}
+		if len(jobs) > par {
+			per := time.Duration(int64(dl) * int64(par) / int64(len(jobs)))
+			if per < 30*time.Second {
+				per = 30 * time.Second
+			}
+			for i := range jobs {
+				jobs[i].cfg.Deadline = per
+			}
+		}
+	}
 	if only >= 0 {
 		// sub-worker: one scenario
 		if only >= len(jobs) {
